@@ -394,7 +394,13 @@ impl World {
             let ob = &m.objs[map as usize];
             ob.status == Status::Live && m.objs[ob.owner.unwrap() as usize].status == Status::Live
         };
+        let depth = {
+            let mut m = self.m.borrow_mut();
+            m.clean_stack.push(uid);
+            m.clean_stack.len() - 1
+        };
         self.lib(LibCall::Clean, || unsafe { &*p }.clean());
+        self.m.borrow_mut().clean_stack.truncate(depth);
         self.sync();
         let (runs_after, tainted) = {
             let m = self.m.borrow();
